@@ -93,6 +93,12 @@ fn mh_case(rep: &mut Report, case: u64, g: &mut Sm64) {
                 rep.violation(&format!("{sig} acceptance-generator-equals-proposal-generator"), mon, case, json!({"cfg": cj, "chain": i}));
                 return;
             }
+            // a stream is a stream whatever it is used for: chain i's proposal noise must not be
+            // chain j's acceptance stream either
+            if let Some(j) = (0..n_chains).find(|j| acc[*j] == prp[i]) {
+                rep.violation(&format!("{sig} proposal-generator-of-one-chain-equals-acceptance-generator-of-another"), mon, case, json!({"cfg": cj, "proposal_of_chain": i, "acceptance_of_chain": j}));
+                return;
+            }
             for j in 0..i {
                 if acc[i] == acc[j] {
                     rep.violation(&format!("{sig} two-chains-share-acceptance-stream"), mon, case, json!({"cfg": cj, "chains": [j, i]}));
@@ -113,6 +119,11 @@ fn mh_case(rep: &mut Report, case: u64, g: &mut Sm64) {
         let mut p = IsotropicGaussian::<f64>::new(std);
         if prop_seeded {
             p = p.set_seed(g.next_u64());
+        }
+        // the user may have tried the proposal out before handing it over
+        if g.chance(0.4) {
+            let _ = p.sample(&x0);
+            rep.count("library_proposal_sampled_before_being_handed_over");
         }
         let r = guard(|| {
             let mut s = MetropolisHastings::new(IsotropicGaussian::<f64>::new(1.0), p, inits.clone());
@@ -144,6 +155,10 @@ fn mh_case(rep: &mut Report, case: u64, g: &mut Sm64) {
         for i in 0..n_chains {
             if prp[i] == as_if[i] {
                 rep.violation(&format!("{sig} acceptance-generator-equals-proposal-generator"), mon, case, json!({"cfg": cj, "chain": i}));
+                return;
+            }
+            if let Some(j) = (0..n_chains).find(|j| as_if[*j] == prp[i]) {
+                rep.violation(&format!("{sig} proposal-generator-of-one-chain-equals-acceptance-generator-of-another"), mon, case, json!({"cfg": cj, "proposal_of_chain": i, "acceptance_of_chain": j}));
                 return;
             }
             for j in 0..i {
